@@ -34,8 +34,9 @@ def coqty(t):
 class Fn:
     """signature of a translated (or primitive-monadic) callable"""
 
-    def __init__(self, coq, params, ret, kind="pure", truth_only=False, clocked=False):
+    def __init__(self, coq, params, ret, kind="pure", truth_only=False, clocked=False, fueled=False):
         self.coq, self.params, self.ret, self.kind, self.truth_only, self.clocked = coq, params, ret, kind, truth_only, clocked
+        self.fueled = fueled
 
 
 class Unit:
@@ -49,12 +50,15 @@ class Unit:
         self.noop_calls = []    # predicates on ast.Call (statement position) that are skipped (logging, tqdm, print)
         self.hints = {}         # local / parameter name -> type
         self.dict_keys = {}     # rec name -> {python key: (coq field, value type)}  (dict modelled as record of options)
-        self.subobjs = {}       # attribute holding a translated sub-object: attr -> Unit-like (fields/methods) [unused here]
+        self.oracles = {}       # exact source text of an expression -> (coq text, type): values the model takes as inputs
+        self.externals = {}     # self.<method> calls that are Section variables: name -> Fn (kind "pure": no self threading)
 
 
 class Tr:
-    def __init__(self, unit, clocked=False, is_method=False, ret="none", truth_only=False):
+    def __init__(self, unit, clocked=False, is_method=False, ret="none", truth_only=False, fueled=False):
         self.u = unit
+        self.fueled = fueled
+        self.in_ret_loop = 0
         self.clocked = clocked
         self.is_method = is_method
         self.ret = ret
@@ -78,6 +82,8 @@ class Tr:
             out = val
         if self.clocked:
             out = "(%s, k)" % out
+        if self.in_ret_loop:
+            return "Ok (inr %s)" % out
         return "Ok %s" % out
 
     def none_value(self):
@@ -156,6 +162,12 @@ class Tr:
         return b, t, ty
 
     def expr(self, e, env):
+        src = ast.unparse(e)
+        if src in self.u.oracles:
+            return [], self.u.oracles[src][0], self.u.oracles[src][1]
+        if isinstance(e, ast.Attribute) and src.startswith("self.") and src[5:] in self.u.fields and "." in src[5:]:
+            f, ty = self.u.fields[src[5:]]
+            return [], "(%s self)" % f, ty
         if isinstance(e, ast.Constant):
             if e.value is None:
                 return [], "None", "opt:?"
@@ -173,6 +185,8 @@ class Tr:
             if ty == "Q":
                 return b, "(Qopp %s)" % t, "Q"
             raise Abort("unary minus on %s" % ty)
+        if isinstance(e, ast.List) and not e.elts:
+            return [], "[]", "list:?"
         if isinstance(e, ast.Name):
             if e.id not in env:
                 raise Abort("unknown name %s" % e.id)
@@ -330,7 +344,11 @@ class Tr:
         "np.array": (["list:Q"], "list:Q", "", False),
         "np.argmax": (["list:Q"], "Z", "np_argmax_q", True),
         "int": (["Z"], "Z", "", False),
+        "np.prod": (["list:Z"], "Z", "zprod_l", False),
+        "gcd": (["Z", "Z"], "Z", "Z.gcd", False),
+        "np.array": (["list:Q"], "list:Q", "", False),
     }
+    PRIMS_ALT = {"np.array": (["list:Z"], "list:Z", "", False), "max": (["list:score"], "score", "py_max", True)}
 
     def call(self, e, env):
         fn = ast.unparse(e.func)
@@ -341,6 +359,26 @@ class Tr:
                 raise Abort("time.time() in a function that is not declared clocked")
             v = self.fresh("now")
             return [("(%s, k)" % v, "Ok (clk k, S k)")], v, "Z"
+        if fn == "int" and len(e.args) == 1 and isinstance(e.args[0], ast.BinOp) and isinstance(e.args[0].op, ast.Div):
+            # int(a / b) on ints: float true division, then truncation toward zero (exact below 2**53)
+            b1, t1, ty1 = self.expr(e.args[0].left, env)
+            b2, t2, ty2 = self.expr(e.args[0].right, env)
+            if ty1 != "Z" or ty2 != "Z":
+                raise Abort("int(a / b) on %s, %s" % (ty1, ty2))
+            v = self.fresh()
+            return b1 + b2 + [(v, "py_int_truediv %s %s" % (t1, t2))], v, "Z"
+        if fn in self.PRIMS_ALT and len(e.args) == 1:
+            try:
+                _, _, ty0 = self.expr(e.args[0], dict(env))
+            except Abort:
+                ty0 = None
+            if ty0 == self.PRIMS_ALT[fn][0][0]:
+                atys, rty, coq, monadic = self.PRIMS_ALT[fn]
+                b, t, _ = self.expr(e.args[0], env)
+                if coq == "":
+                    return b, t, rty
+                v = self.fresh()
+                return b + [(v, "%s %s" % (coq, t))], v, rty
         if fn in self.PRIMS:
             atys, rty, coq, monadic = self.PRIMS[fn]
             if len(e.args) != len(atys):
@@ -366,10 +404,19 @@ class Tr:
         if isinstance(e.func, ast.Name) and e.func.id in self.u.funcs:
             f = self.u.funcs[e.func.id]
             return self.apply(f, e.args, env, with_self=False)
+        if isinstance(e.func, ast.Attribute) and isinstance(e.func.value, ast.Name) and e.func.value.id == "self":
+            if e.func.attr in self.u.methods:
+                return self.apply(self.u.methods[e.func.attr], e.args, env, with_self=True)
+            if e.func.attr in self.u.externals:
+                return self.apply(self.u.externals[e.func.attr], e.args, env, with_self=False)
+        if fn.startswith("self.") and fn[5:] in self.u.externals:
+            return self.apply(self.u.externals[fn[5:]], e.args, env, with_self=False)
         raise Abort("call %s" % ast.unparse(e))
 
     def coerce_arg(self, b, t, ty, want):
-        if ty == want or (ty == "opt:?" and want.startswith("opt:")):
+        if ty == want or (ty == "opt:?" and want.startswith("opt:")) or (ty == "list:?" and want.startswith("list:")):
+            return b, t
+        if (ty, want) in (("list:Z", "pos"), ("pos", "list:Z")):
             return b, t
         if ty == "list:score" and want == "list:Q":
             v = self.fresh()
@@ -393,10 +440,14 @@ class Tr:
             bs += b
             ts.append(t)
         pre = ""
+        if f.fueled:
+            if not self.fueled:
+                raise Abort("call of the fuelled %s from a function without fuel" % f.coq)
+            pre = "fuel "
         if f.clocked:
             if not self.clocked:
                 raise Abort("call of the clocked %s from a function that is not clocked" % f.coq)
-            pre = "clk k "
+            pre += "clk k "
         if with_self:
             pre += "self "
         v = self.fresh()
@@ -446,7 +497,7 @@ class Tr:
             b, t, ty = self.expr(s.value, env)
             b, t = self.coerce_arg(b, t, ty, self.ret)
             return self.binds(b) + self.finish(t)
-        if isinstance(s, ast.Assign) and len(s.targets) == 1:
+        if isinstance(s, ast.Assign) and len(s.targets) == 1 and not isinstance(s.targets[0], ast.Tuple):
             tg = s.targets[0]
             b, t, ty = self.expr(s.value, env)
             if isinstance(tg, ast.Name):
@@ -455,6 +506,10 @@ class Tr:
                     ty = self.u.hints[tg.id]
                 if ty == "opt:?":
                     raise Abort("%s = None needs a type hint" % tg.id)
+                if ty == "list:?":
+                    if tg.id not in self.u.hints:
+                        raise Abort("%s = [] needs a type hint" % tg.id)
+                    ty = self.u.hints[tg.id]
                 v = tg.id + "_v"
                 env[tg.id] = (v, ty)
                 return "%slet %s := %s in %s" % (self.binds(b), v, t, nxt(env))
@@ -479,7 +534,9 @@ class Tr:
             f = self.u.fields[s.target.attr][0]
             return "%slet self := self <| %s := (%s self) %s %s |> in %s" % (
                 self.binds(b), f, f, "+" if isinstance(s.op, ast.Add) else "-", t, nxt(env))
-        if isinstance(s, ast.Expr) and isinstance(s.value, ast.Call):
+        if isinstance(s, ast.Expr) and isinstance(s.value, ast.Call) and not (
+                isinstance(s.value.func, ast.Attribute) and s.value.func.attr == "append"
+                and isinstance(s.value.func.value, ast.Name) and s.value.func.value.id in env):
             c = s.value
             if self.is_noop(c):
                 return nxt(env)
@@ -497,6 +554,52 @@ class Tr:
                 b, _, _ = self.apply(self.u.methods[f.attr], c.args, env, with_self=True)
                 return self.binds(b) + nxt(env)
             raise Abort("call statement %s" % ast.unparse(c))
+        # a, b = (x, y)
+        if isinstance(s, ast.Assign) and len(s.targets) == 1 and isinstance(s.targets[0], ast.Tuple) and isinstance(s.value, ast.Tuple) \
+                and len(s.targets[0].elts) == len(s.value.elts) and all(isinstance(x, ast.Name) for x in s.targets[0].elts):
+            bs, lets = [], []
+            for tg, v in zip(s.targets[0].elts, s.value.elts):
+                b, t, ty = self.expr(v, env)      # all right-hand sides are evaluated before any binding
+                bs += b
+                lets.append((tg.id, t, ty))
+            txt = self.binds(bs)
+            tmp = []
+            for name, t, ty in lets:
+                w = self.fresh("tup")
+                txt += "let %s := %s in " % (w, t)
+                tmp.append((name, w, ty))
+            for name, w, ty in tmp:
+                if name != "_":
+                    env[name] = (name + "_v", ty)
+                    txt += "let %s_v := %s in " % (name, w)
+            return txt + nxt(env)
+        # local name: x += e / x -= e ; local list: x.append(e)
+        if isinstance(s, ast.AugAssign) and isinstance(s.target, ast.Name) and isinstance(s.op, (ast.Add, ast.Sub)) and s.target.id in env:
+            b, t, ty = self.expr(s.value, env)
+            cur, cty = env[s.target.id]
+            if cty != "Z" or ty != "Z":
+                raise Abort("%s on %s, %s" % (ast.unparse(s), cty, ty))
+            v = s.target.id + "_v"
+            env[s.target.id] = (v, "Z")
+            return "%slet %s := (%s %s %s) in %s" % (self.binds(b), v, cur, "+" if isinstance(s.op, ast.Add) else "-", t, nxt(env))
+        if isinstance(s, ast.Expr) and isinstance(s.value, ast.Call) and isinstance(s.value.func, ast.Attribute) \
+                and s.value.func.attr == "append" and isinstance(s.value.func.value, ast.Name) and s.value.func.value.id in env \
+                and len(s.value.args) == 1 and not s.value.keywords:
+            name = s.value.func.value.id
+            cur, cty = env[name]
+            b, t, ty = self.expr(s.value.args[0], env)
+            if cty == "list:?":
+                cty = "list:" + ty
+            if not cty.startswith("list:"):
+                raise Abort("append to the %s %s" % (cty, name))
+            b, t = self.coerce_arg(b, t, ty, cty[5:])
+            v = name + "_v"
+            env[name] = (v, cty)
+            return "%slet %s := (%s ++ [%s]) in %s" % (self.binds(b), v, cur, t, nxt(env))
+        if isinstance(s, ast.For):
+            return self.for_loop(s, env, rest, rest_k)
+        if isinstance(s, ast.While):
+            return self.while_loop(s, env, rest, rest_k)
         if isinstance(s, ast.If):
             b, t = self.cond(s.test, env)
             if self.always_returns(s.body) and not s.orelse:
@@ -504,6 +607,128 @@ class Tr:
             # general case: the continuation is duplicated into both branches (local assignments stay branch-local)
             return "%sif %s then (%s) else (%s)" % (self.binds(b), t, self.block(s.body, env, nxt), self.block(s.orelse, env, nxt))
         raise Abort("statement `%s`" % ast.unparse(s).split("\n")[0])
+
+
+def _loops(cls):
+    pass
+
+
+def assigned_names(stmts):
+    out = set()
+    for st in stmts:
+        for n in ast.walk(st):
+            if isinstance(n, ast.Assign):
+                for t in n.targets:
+                    for x in ([t] if not isinstance(t, ast.Tuple) else t.elts):
+                        if isinstance(x, ast.Name):
+                            out.add(x.id)
+            elif isinstance(n, ast.AugAssign) and isinstance(n.target, ast.Name):
+                out.add(n.target.id)
+            elif isinstance(n, ast.Call) and isinstance(n.func, ast.Attribute) and n.func.attr == "append" and isinstance(n.func.value, ast.Name):
+                out.add(n.func.value.id)
+    return out
+
+
+def _state_tuple(self, names, env):
+    parts = [env[n][0] for n in names]
+    if self.is_method:
+        parts.append("self")
+    if self.clocked:
+        parts.append("k")
+    if not parts:
+        return "tt"
+    t = parts[0]
+    for x in parts[1:]:
+        t = "(%s, %s)" % (t, x)
+    return t
+
+
+def _contains(stmts, kinds):
+    return any(isinstance(n, kinds) for st in stmts for n in ast.walk(st))
+
+
+def for_loop(self, s, env, rest, rest_k):
+    if s.orelse or not isinstance(s.target, ast.Name):
+        raise Abort("for loop shape: %s" % ast.unparse(s).split("\n")[0])
+    it = s.iter
+    if isinstance(it, ast.Call) and ast.unparse(it.func) == "range" and len(it.args) == 1 and not it.keywords:
+        b, t, ty = self.expr(it.args[0], env)
+        if ty != "Z":
+            raise Abort("range of a %s" % ty)
+        lst, ety = "(py_range %s)" % t, "Z"
+    else:
+        b, lst, ty = self.expr(it, env)
+        if ty == "pos":
+            ty = "list:Z"
+        if not ty.startswith("list:"):
+            raise Abort("for over a %s" % ty)
+        ety = ty[5:]
+    body = list(s.body)
+    brk = None
+    if body and isinstance(body[-1], ast.If) and not body[-1].orelse and len(body[-1].body) == 1 and isinstance(body[-1].body[0], ast.Break):
+        brk = body[-1].test
+        body = body[:-1]
+    if _contains(body, (ast.Break, ast.Continue, ast.Return)):
+        raise Abort("break / continue / return inside a for loop (other than a final `if c: break`)")
+    carried = sorted(n for n in assigned_names(body) if n in env)
+    for n in carried:
+        if env[n][1] == "list:?":
+            if n not in self.u.hints:
+                raise Abort("%s = [] needs a type hint" % n)
+            env[n] = (env[n][0], self.u.hints[n])
+    pat = _state_tuple(self, carried, env)
+    benv = dict(env)
+    benv[s.target.id] = (s.target.id + "_v", ety)
+
+    def body_end(e2):
+        st = _state_tuple(self, carried, e2)
+        if brk is None:
+            return "Ok %s" % st
+        cb, ct = self.cond(brk, e2)
+        return "%sOk (%s, %s)" % (self.binds(cb), st, ct)
+
+    btxt = self.block(body, benv, body_end)
+    comb = "py_for" if brk is None else "py_for_break"
+    loop = "%s (fun st %s_v => let '%s := st in %s) %s %s" % (comb, s.target.id, pat, btxt, lst, pat) if pat != "tt" else \
+           "%s (fun st %s_v => %s) %s tt" % (comb, s.target.id, btxt, lst)
+    after = self.block(rest, env, rest_k)
+    return "%sdo %s <- %s; %s" % (self.binds(b), "_" if pat == "tt" else pat, loop, after)
+
+
+def while_loop(self, s, env, rest, rest_k):
+    if s.orelse:
+        raise Abort("while ... else")
+    if not self.fueled:
+        raise Abort("while loop in a function that is not declared fuelled")
+    body = list(s.body)
+    if _contains(body, (ast.Break, ast.Continue)):
+        raise Abort("break / continue inside a while loop")
+    carried = sorted(n for n in assigned_names(body) if n in env)
+    pat = _state_tuple(self, carried, env)
+    lam = ("let '%s := st in " % pat) if pat.startswith("(") else ("let %s := st in " % pat if pat != "tt" else "")
+    forever = isinstance(s.test, ast.Constant) and s.test.value is True
+    if forever:
+        if rest:
+            raise Abort("statements after `while True`")
+        self.in_ret_loop += 1
+        btxt = self.block(body, dict(env), lambda e2: "Ok (inl %s)" % _state_tuple(self, carried, e2))
+        self.in_ret_loop -= 1
+        loop = "py_while_ret fuel (fun st => %s%s) %s" % (lam, btxt, pat)
+        if self.in_ret_loop:
+            raise Abort("nested `while True`")
+        return loop
+    if _contains(body, (ast.Return,)):
+        raise Abort("return inside a conditional while loop")
+    cb, ct = self.cond(s.test, dict(env))
+    ctxt = "%sOk %s" % (self.binds(cb), ct)
+    btxt = self.block(body, dict(env), lambda e2: "Ok %s" % _state_tuple(self, carried, e2))
+    loop = "py_while fuel (fun st => %s%s) (fun st => %s%s) %s" % (lam, ctxt, lam, btxt, pat)
+    after = self.block(rest, env, rest_k)
+    return "do %s <- %s; %s" % ("_" if pat == "tt" else pat, loop, after)
+
+
+Tr.for_loop = for_loop
+Tr.while_loop = while_loop
 
 
 def params_of(fn, skip_self):
@@ -524,7 +749,7 @@ def translate_function(unit, fn, sig, name=None):
     ps = params_of(fn, is_method)
     if len(ps) != len(sig.params):
         raise Abort("%s: %d parameters, %d declared" % (fn.name, len(ps), len(sig.params)))
-    tr = Tr(unit, clocked=sig.clocked, is_method=is_method, ret=sig.ret, truth_only=sig.truth_only)
+    tr = Tr(unit, clocked=sig.clocked, is_method=is_method, ret=sig.ret, truth_only=sig.truth_only, fueled=sig.fueled)
     env = {p: (p, t) for p, t in zip(ps, sig.params)}
     body = tr.block(fn.body, env)
     args = " ".join("(%s : %s)" % (p, coqty(t)) for p, t in zip(ps, sig.params))
@@ -537,4 +762,6 @@ def translate_function(unit, fn, sig, name=None):
     if sig.clocked:
         head = "(clk : nat -> Z) (k : nat) " + head
         rty = "(%s * nat)" % rty
+    if sig.fueled:
+        head = "(fuel : nat) " + head
     return "Definition %s %s : res %s :=\n  %s." % (name or sig.coq, head, rty, body)
